@@ -190,3 +190,16 @@ def kf_non_object_arguments():
     ok = seen['inv_int_uarray_truncated'] and seen['int_ndarray_truncated'] and \
         seen['lists'] == ['AttributeError'] * 3 and seen['bool'] == 'UFuncTypeError'
     return ok, seen
+
+def kf_solve_2d_rhs_pivoting():
+    """regression check of the fixed finding C15-5: la.solve with a 2-D right-hand side and a matrix that needs a row
+    exchange (a[0,0] = 0) used to return wrong values silently (LU._lubksb exchanged ROW VIEWS of the 2-D copy of b)"""
+    import numpy as np, warnings
+    from GTC import la
+    new_context(95)
+    a = [[0.0, 2.0], [3.0, 1.0]]; b = [[1.0, 2.0], [3.0, 4.0]]
+    with warnings.catch_warnings():
+        warnings.simplefilter('ignore')
+        x = la.solve(la.uarray(a), la.uarray(b))
+    r = np.array(a).dot(np.array(x, dtype=float)) - np.array(b)
+    return bool(np.abs(r).max() > 1e-9), {'x': np.array(x, dtype=float).tolist(), 'max_residual': float(np.abs(r).max())}
